@@ -29,6 +29,7 @@ theorem Dir.move (h : Dir v live) (v' : DirV) (hT : (toks v').Perm (toks v)) (ep
   obtain ⟨m1, m2⟩ := h.mv_nm (v' := v') hT ep k2 k1 hmap k5 hmR
   exact {
     sf := by rw [hself, ep]; exact h.sf
+    co := by rw [hco, k7]; exact h.co
     ph := by rw [hk']; exact h.ph
     idn := by rw [ep]; exact h.idn
     lk := by rw [ep, hco, hact, k8, hcq]; exact h.lk
@@ -359,6 +360,11 @@ theorem both_sendComplete (h : Both vx vy live q) (hph : Phase (key q)) :
         obtain ⟨n1, n2⟩ := hx.nm (by simp [g2])
         exact {
           sf := hx.sf
+          co := by
+            intro c' hc'
+            rcases List.mem_append.mp hc' with hc' | hc'
+            · exact List.mem_append_left _ (hx.co c' hc')
+            · exact List.mem_append_right _ hc'
           ph := by
             have hcr : c = r.id := by rw [hc] at g5; injection g5
             exact Or.inl (Phase.idle rfl rfl rfl g6 (by simp [key, g3, g4, hcr]))
@@ -416,6 +422,7 @@ theorem both_fromCtrl (h : Both vx vy live q) (hph : Phase (key q)) :
         obtain ⟨n1, n2⟩ := hx.nm (by simp [g2])
         exact {
           sf := hx.sf
+          co := hx.co
           ph := Or.inr (Accepted.mk q.started r g1 rfl rfl g5 g3 g4)
           idn := hx.idn
           lk := by
@@ -519,6 +526,7 @@ theorem both_startMigration (h : Both vx vy live q) :
         exact this
       exact {
         sf := hx.sf
+        co := hx.co
         ph := Or.inl hph
         idn := hx.idn
         lk := by simpa [activeId, hc] using hx.lk
